@@ -190,16 +190,40 @@ func init() {
 	ext("(reflect.Value).FieldByIndex", func(fr *frame, args []value) value {
 		t, v := rV2T(args[0]).t, rV2V(args[0])
 		for _, ix := range args[1].([]value) {
+			if p, ok := t.Underlying().(*types.Pointer); ok {
+				t, v = p.Elem(), *(v.(*value))
+			}
 			st := t.Underlying().(*types.Struct)
 			t, v = st.Field(ix.(int)).Type(), v.(structure)[ix.(int)]
 		}
 		return makeReflectValue(t, v)
 	})
 	ext("(reflect.rtype).FieldByName", func(fr *frame, args []value) value {
-		st := rtOf(args[0]).Underlying().(*types.Struct)
-		for k := 0; k < st.NumFields(); k++ {
-			if st.Field(k).Name() == args[1].(string) {
-				return tuple{ext۰reflect۰rtype۰Field(fr, []value{args[0], k}), true}
+		// promoted fields of embedded structs included, as reflect does
+		obj, index, _ := types.LookupFieldOrMethod(rtOf(args[0]), false, nil, args[1].(string))
+		if fld, ok := obj.(*types.Var); ok && fld.IsField() && (fld.Exported() || len(index) == 1) {
+			t := rtOf(args[0])
+			var sf structure
+			for _, ix := range index {
+				st := t.Underlying().(*types.Struct)
+				sf = ext۰reflect۰rtype۰Field(fr, []value{rtype{t}, ix}).(structure)
+				t = st.Field(ix).Type()
+				if p, ok := t.Underlying().(*types.Pointer); ok {
+					t = p.Elem()
+				}
+			}
+			path := make([]value, len(index))
+			for k, ix := range index {
+				path[k] = ix
+			}
+			sf[5] = path
+			return tuple{sf, true}
+		}
+		if st, ok := rtOf(args[0]).Underlying().(*types.Struct); ok {
+			for k := 0; k < st.NumFields(); k++ {
+				if st.Field(k).Name() == args[1].(string) {
+					return tuple{ext۰reflect۰rtype۰Field(fr, []value{args[0], k}), true}
+				}
 			}
 		}
 		return tuple{zero(fr.i.prog.ImportedPackage("reflect").Type("StructField").Type()), false}
